@@ -33,18 +33,34 @@ func (op *EditCommentOperation) Apply(snapshot *Snapshot) {
 	// Todo: currently any message can be edited, even by a different author
 	// crypto signature are needed.
 
-	// The combined Id only holds a prefix of the target Id: make sure that the target
-	// is really an operation that created a comment, otherwise the edit is a no-op
-	if _, err := snapshot.SearchCommentByOpId(op.Target); err != nil {
+	// The combined Id only holds a prefix of the target Id, which two operations of a bug
+	// can share: the comment and its timeline item are matched on the full Id of the
+	// operation that created the comment. Anything else makes the edit a no-op.
+	commentIdx := -1
+	for i := range snapshot.Comments {
+		if snapshot.Comments[i].targetId == op.Target {
+			commentIdx = i
+			break
+		}
+	}
+	if commentIdx < 0 {
 		return
 	}
 
-	// Recreate the combined Id to match on
-	combinedId := entity.CombineIds(snapshot.Id(), op.Target)
+	combinedId := snapshot.Comments[commentIdx].combinedId
 
 	var target TimelineItem
 	for i, item := range snapshot.Timeline {
-		if item.CombinedId() == combinedId {
+		var itemTarget entity.Id
+		switch item := item.(type) {
+		case *CreateTimelineItem:
+			itemTarget = item.targetId
+		case *AddCommentTimelineItem:
+			itemTarget = item.targetId
+		default:
+			continue
+		}
+		if itemTarget == op.Target {
 			target = snapshot.Timeline[i]
 			break
 		}
@@ -78,13 +94,8 @@ func (op *EditCommentOperation) Apply(snapshot *Snapshot) {
 
 	// Updating the corresponding comment
 
-	for i := range snapshot.Comments {
-		if snapshot.Comments[i].CombinedId() == combinedId {
-			snapshot.Comments[i].Message = op.Message
-			snapshot.Comments[i].Files = op.Files
-			break
-		}
-	}
+	snapshot.Comments[commentIdx].Message = op.Message
+	snapshot.Comments[commentIdx].Files = op.Files
 }
 
 func (op *EditCommentOperation) GetFiles() []repository.Hash {
